@@ -146,4 +146,108 @@ theorem sizes_getD (d : Dims) (k : Nat) : (sizes d).getD k 0 = (d.getD k (0, 0))
 
 @[simp] theorem sizes_length (d : Dims) : (sizes d).length = d.length := by simp [sizes]
 
+/-! ### element counts, `min_data_len` and sub-views -/
+
+theorem numel_pos_of_valid {shape idx : List Nat} (h : validIdx shape idx = true) :
+    0 < numel shape := by
+  induction shape generalizing idx with
+  | nil => simp [numel]
+  | cons n ns ih =>
+    cases idx with
+    | nil => simp [validIdx] at h
+    | cons i is =>
+      simp only [validIdx, Bool.and_eq_true, decide_eq_true_eq] at h
+      have := ih h.2
+      simp only [numel, List.foldr_cons] at this ⊢
+      exact Nat.mul_pos (by omega) this
+
+theorem anyZero_iff (shape : List Nat) : (shape.any (· == 0)) = true ↔ numel shape = 0 := by
+  induction shape with
+  | nil => simp [numel]
+  | cons n ns ih =>
+    simp only [List.any_cons, Bool.or_eq_true, beq_iff_eq, numel, List.foldr_cons, Nat.mul_eq_zero]
+    simp only [numel] at ih
+    rw [ih]
+
+theorem sum_eraseIdx (l : List Nat) (k : Nat) (hk : k < l.length) :
+    l.sum = l.getD k 0 + (l.eraseIdx k).sum := by
+  induction k generalizing l with
+  | zero => cases l with
+    | nil => simp at hk
+    | cons a as => simp
+  | succ k ih =>
+    cases l with
+    | nil => simp at hk
+    | cons a as =>
+      simp only [List.length_cons, Nat.add_lt_add_iff_right] at hk
+      simp only [List.eraseIdx_cons_succ, List.getD_cons_succ, List.sum_cons, ih as hk]
+      omega
+
+theorem numel_eraseIdx (l : List Nat) (k : Nat) (hk : k < l.length) :
+    numel l = l.getD k 0 * numel (l.eraseIdx k) := by
+  induction k generalizing l with
+  | zero => cases l with
+    | nil => simp at hk
+    | cons a as => simp [numel]
+  | succ k ih =>
+    cases l with
+    | nil => simp at hk
+    | cons a as =>
+      simp only [List.length_cons, Nat.add_lt_add_iff_right] at hk
+      have := ih as hk
+      simp only [numel] at this
+      simp only [List.eraseIdx_cons_succ, List.getD_cons_succ, numel, List.foldr_cons, this]
+      rw [Nat.mul_left_comm]
+
+theorem map_eraseIdx {β γ : Type} (f : β → γ) (l : List β) (k : Nat) :
+    (l.eraseIdx k).map f = (l.map f).eraseIdx k := by
+  induction k generalizing l with
+  | zero => cases l <;> simp
+  | succ k ih => cases l with
+    | nil => simp
+    | cons a as => simp [ih as]
+
+theorem map_getD {β γ : Type} (f : β → γ) (l : List β) (k : Nat) (b : β) (hk : k < l.length) :
+    (l.map f).getD k (f b) = f (l.getD k b) := by
+  induction k generalizing l with
+  | zero => cases l with
+    | nil => simp at hk
+    | cons a as => simp
+  | succ k ih => cases l with
+    | nil => simp at hk
+    | cons a as =>
+      simp only [List.length_cons, Nat.add_lt_add_iff_right] at hk
+      simp only [List.map_cons, List.getD_cons_succ, ih as hk]
+
+/-- Storage needed by the sub-view at position `index` of axis `k`. -/
+theorem minDataLen_eraseIdx (d : Dims) (k index : Nat) (hk : k < d.length)
+    (hi : index < (d.getD k (0, 0)).1) (hne : numelD (d.eraseIdx k) ≠ 0) :
+    (d.getD k (0, 0)).2 * index + minDataLen (d.eraseIdx k) ≤ minDataLen d := by
+  have hnum : numelD d ≠ 0 := by
+    unfold numelD at hne ⊢
+    rw [numel_eraseIdx (sizes d) k (by simpa using hk), ← sizes_eraseIdx, sizes_getD]
+    exact Nat.mul_ne_zero (by omega) hne
+  have hz1 : ((sizes d).any (· == 0)) = false := by
+    cases h : (sizes d).any (· == 0) with
+    | false => rfl
+    | true => exact absurd ((anyZero_iff _).mp h) hnum
+  have hz2 : ((sizes (d.eraseIdx k)).any (· == 0)) = false := by
+    cases h : (sizes (d.eraseIdx k)).any (· == 0) with
+    | false => rfl
+    | true => exact absurd ((anyZero_iff _).mp h) hne
+  unfold minDataLen
+  rw [hz1, hz2]
+  simp only [Bool.false_eq_true, if_false]
+  rw [sum_eraseIdx (d.map fun p => (p.1 - 1) * p.2) k (by simpa using hk), map_eraseIdx]
+  have hg : (d.map fun p => (p.1 - 1) * p.2).getD k 0 =
+      ((d.getD k (0, 0)).1 - 1) * (d.getD k (0, 0)).2 := by
+    have := map_getD (fun p : Nat × Nat => (p.1 - 1) * p.2) d k (0, 0) hk
+    simpa using this
+  rw [hg]
+  have : (d.getD k (0, 0)).2 * index ≤ ((d.getD k (0, 0)).1 - 1) * (d.getD k (0, 0)).2 := by
+    rw [Nat.mul_comm]
+    exact Nat.mul_le_mul_right _ (by omega)
+  omega
+
+
 end RtenVerif.Layout
